@@ -22,6 +22,27 @@ class Run:
         self.events = self.s.events
         self.returns = self.s.returns
 
+    def join_returns(self):
+        """exits that return tuples of one arity and differ only element-wise (a helper with two
+        returns was inlined into one element) are one exit whose differing elements are case
+        terms over the exits' own conditions"""
+        rs = self.returns
+        if len(rs) <= 1 or not all(t[0] == "tuple" for _, t in rs) \
+                or len({len(t[1]) for _, t in rs}) != 1:
+            return rs
+        pcs = [tuple(pc) for pc, _ in rs]
+        k = 0
+        while all(len(pc) > k for pc in pcs) and len({pc[k] for pc in pcs}) == 1:
+            k += 1
+        els = []
+        for i in range(len(rs[0][1][1])):
+            vals = [t[1][i] for _, t in rs]
+            if all(v == vals[0] for v in vals):
+                els.append(vals[0])
+            else:
+                els.append(("cases", tuple((pc[k:], v) for pc, v in zip(pcs, vals))))
+        return [(pcs[0][:k], ("tuple", tuple(els)))]
+
     def stores(self):
         out = []
         for ev in self.events:
@@ -75,8 +96,10 @@ def gstep_deep(ctx):
 def step_shallow(ctx):
     def mk():
         fi = ctx.repo.func(ENV_MOD, "NASimEnv.step")
-        return Run(ctx, ENV_MOD, "NASimEnv.step", {fi.params[0]: "NASimEnv"},
-                   no_inline=(GSTEP,))
+        r = Run(ctx, ENV_MOD, "NASimEnv.step", {fi.params[0]: "NASimEnv"},
+                no_inline=(GSTEP,))
+        r.returns = r.join_returns()
+        return r
     return _get(ctx, "step_shallow", mk)
 
 
